@@ -146,6 +146,10 @@ func ShapesFor(f Field, c *Counter, gob bool) []Shaped {
 	case KNLV:
 		mk := func(n string, v ap.NaturalLanguageValues) Shaped { return Shaped{n, reflect.ValueOf(v)} }
 		out := []Shaped{
+			// set, but saying nothing: no entries, and one entry without text - absent under the normal form, and no reason for the
+			// value that holds it to go missing
+			mk("nl-empty", ap.NaturalLanguageValues{}),
+			mk("nl-textless", ap.NaturalLanguageValues{{Ref: "en", Value: ap.Content("")}}),
 			mk("nl1", ap.NaturalLanguageValues{{Ref: ap.NilLangRef, Value: ap.Content("txt-plain value")}}),
 			mk("nl1tagged", ap.NaturalLanguageValues{{Ref: "en", Value: ap.Content("txt-tagged value")}}),
 			mk("nlN", ap.NaturalLanguageValues{{Ref: "en", Value: ap.Content("txt-english")}, {Ref: "fr", Value: ap.Content("txt-french")}}),
@@ -253,6 +257,7 @@ func ShapesFor(f Field, c *Counter, gob bool) []Shaped {
 			{"endpoints-oauth-token", reflect.ValueOf(&ap.Endpoints{OauthTokenEndpoint: c.ID("ot")})},
 			{"endpoints-provide-key", reflect.ValueOf(&ap.Endpoints{ProvideClientKey: c.ID("pk")})},
 			{"endpoints-sign-key", reflect.ValueOf(&ap.Endpoints{SignClientKey: c.ID("sk")})},
+			{"endpoints-empty", reflect.ValueOf(&ap.Endpoints{})},
 			{"endpoints-embedded", reflect.ValueOf(&ap.Endpoints{SharedInbox: &ap.OrderedCollection{ID: c.ID("shared-inbox"), Type: ap.OrderedCollectionType, TotalItems: 1}, UploadMedia: c.ID("up")})},
 			{"endpoints-all", reflect.ValueOf(&ap.Endpoints{SharedInbox: c.ID("shared"), UploadMedia: c.ID("up"), OauthAuthorizationEndpoint: c.ID("oa"), OauthTokenEndpoint: c.ID("ot"), ProvideClientKey: c.ID("pk"), SignClientKey: c.ID("sk")})},
 		}
@@ -325,6 +330,9 @@ func Everything(st reflect.Type, gob bool) ap.Item {
 		if f.Kind == KItems {
 			pick = shapes[6]
 		}
+		if f.Kind == KNLV {
+			pick = shapes[2] // the first shape that says something
+		}
 		p.Elem().Field(f.Index).Set(pick.V)
 	}
 	return p.Interface().(ap.Item)
@@ -343,6 +351,18 @@ func AnonymousCells(gob bool) (cells []Cell) {
 		shapes := ShapesFor(f, c, gob)
 		if f.Kind == KItems {
 			shapes = shapes[1:] // not the empty list: an object whose only property is an empty list says nothing
+		}
+		if f.Kind == KNLV {
+			shapes = shapes[2:] // nor the text properties that say nothing
+		}
+		if f.Kind == KItem {
+			var keep []Shaped
+			for _, sh := range shapes {
+				if sh.Name != "empty-list" {
+					keep = append(keep, sh)
+				}
+			}
+			shapes = keep
 		}
 		for si, sh := range shapes {
 			if si >= 3 {
